@@ -164,6 +164,6 @@ def stages(tier):
         Enum('small-trees', _small_chunks, _small_cases,
              'every tree (no well-formedness filter) with <= 3 (quick) / 4 (thorough) non-concept branches over vars {a,b,c}, '
              'roles {:r,:r-of,:s}, atom k, concept in {absent,x}; x {default, noop}'),
-        Hyp('random', _cases, 8000, 300000),
+        Hyp('random', _cases, 8000, 200000),
         Hyp('random-large', lambda: _cases(large=True), 300, 15000),
     ]
